@@ -232,7 +232,8 @@ Section Analysis.
       end
     end.
 
-  (* FunctionInteractionsUtils.all_store_paths: pre-order, OrderedDict semantics (first position, last value) *)
+  (* FunctionInteractionsUtils.all_store_paths: pre-order; a path reached several times keeps the signature of its FIRST
+     occurrence (fix of F26: the keep under which the node is evaluated, not a later by-name mention of the callee) *)
   Fixpoint store_paths_list (x : fi) : list (bytes * bytes) :=
     match x with
     | FI s p _ _ _ ch =>
@@ -240,6 +241,9 @@ Section Analysis.
       ++ (fix go (l : list fi) : list (bytes * bytes) := match l with [] => [] | y :: r => store_paths_list y ++ go r end) ch
     end.
   Definition odict (l : list (bytes * bytes)) : list (bytes * bytes) :=
+    fold_left (fun acc kv => match rlookup (fst kv) acc with Some _ => acc | None => acc ++ [kv] end) l [].
+  (* the pinned behaviour: OrderedDict(res) - first position, LAST value *)
+  Definition odict_pinned (l : list (bytes * bytes)) : list (bytes * bytes) :=
     fold_left (fun acc kv => rupdate (fst kv) (snd kv) acc) l [].
   Definition all_store_paths (x : fi) : list (bytes * bytes) := odict (store_paths_list x).
 End Analysis.
